@@ -9,7 +9,7 @@ CONSTANTS
   TimeoutTicks = 2
   MaxTicks = 3
   Weaken = "none"
-INVARIANTS ObsFidelity ObsNoSilentCorruption
+INVARIANTS ObsFidelity ObsNoSilentCorruption ObsNoHang
 CONSTRAINT HW
 POSTCONDITION Accepted
 CHECK_DEADLOCK FALSE
